@@ -35,7 +35,8 @@ METHODS = ["GET", "HEAD", "POST"]
 STATUSES = ["200 OK", "204 No Content", "304 Not Modified", "100 Continue"]
 CLMODES = ["absent", "exact", "larger", "smaller"]
 SHAPES = ["empty", "one", "several", "write", "mixed", "write-one"]
-RETS = ["list", "tuple", "gen", "iterlen", "fw_seek", "fw_noseek", "fw_seek_big", "fw_seek_pos", "fw_seek_lc", "list_lc"]
+RETS = ["list", "tuple", "gen", "iterlen", "fw_seek", "fw_noseek", "fw_seek_big", "fw_seek_pos", "fw_seek_lc", "list_lc",
+        "fw_real", "fw_real_pos", "fw_real_big_pos"]
 FAILS = ["none", "before-sr", "after-sr", "after-output", "replaced"]
 SENDS = ["all", "one", "blocked"]
 SEND_PATTERNS = {"all": (-1,), "one": (1,), "blocked": (0, 0, -1)}
@@ -95,7 +96,17 @@ def build_cell(cell):
             # the application spells its length header in lower case
             prog["ret"] = "fw_seek"
             prog["cl_name"] = "content-length"
+        real = False
+        if ret in ("fw_real", "fw_real_pos", "fw_real_big_pos"):
+            # a file of the operating system, read from the start or from somewhere inside
+            real = True
+            pos = {"fw_real": 0, "fw_real_pos": 3, "fw_real_big_pos": 50000}[ret]
+            if ret == "fw_real_big_pos":
+                content = "".join(chr(33 + (i * 7) % 90) for i in range(70000))
+            prog["ret"] = "fw_seek"
         prog["fw"] = {"content": content, "pos": pos}
+        if real:
+            prog["fw"]["real"] = True
         produced_len = len(content) - pos + sum(len(a) for op, a in prog["steps"] if op == "write")
     else:
         produced_len = sum(len(a) for op, a in steps if op in ("write", "yield"))
